@@ -68,6 +68,8 @@ func c04Typed(thorough bool) []rv.V {
 		rv.S("2012-01-01"), rv.S("2012-01-01 00:00:00"), rv.S("2012-1-1"), rv.S("2012-01-02"),
 		rv.S(":"), rv.S("[S]A"), rv.S("[S]a"), rv.S("[N]"), rv.S("[I]1"), rv.S("[F]1"), rv.S("[B]T"), rv.S("[T]T"),
 		rv.S("[D]1325376000000000000"), rv.S("NULL"),
+		// the float zero with a sign; datetimes beyond the range of 64-bit nanoseconds, two of them exactly 2^64 ns apart
+		rv.S("-0.0"), rv.S("0100-01-01 00:00:00"), rv.S("0684-07-21 23:34:33.709551616"), rv.S("2300-01-01"),
 		rv.B(true), rv.B(false), rv.Tv(rv.T), rv.Tv(rv.F),
 		rv.D(c04d1), rv.D(c04d2),
 	}
